@@ -44,6 +44,9 @@ type Case struct {
 	// Prelude: an exchange served by the same Validator / ValidationHandler before the one that is
 	// judged ("" = none). Whatever it was, the judged exchange must go as it goes on a fresh instance.
 	Prelude string `json:"prelude,omitempty"` // head | invalid | unroutable | bad-response | good-response
+	// PlainClient (front validator): the writer on the client's side has no optional interfaces (no
+	// Flusher): a flush by the handler goes nowhere and commits nothing
+	PlainClient bool `json:"plain_client,omitempty"`
 	// VOpts: validation options given to the Validator: 1 ExcludeResponseBody, 2 IncludeResponseStatus, 4 MultiError
 	VOpts int `json:"vopts,omitempty"`
 }
@@ -127,6 +130,11 @@ func (p plainWriter) Header() http.Header         { return p.w.Header() }
 func (p plainWriter) Write(b []byte) (int, error) { return p.w.Write(b) }
 func (p plainWriter) WriteHeader(c int)           { p.w.WriteHeader(c) }
 
+// deafFlusher: a Flusher whose Flush goes nowhere, which is what the non-strict wrapper is over a plain writer
+type deafFlusher struct{ plainWriter }
+
+func (deafFlusher) Flush() {}
+
 // prelude serves one earlier exchange through mw (built over the same Validator / ValidationHandler).
 func prelude(kind string, wrap func(http.Handler) http.Handler) {
 	if kind == "" {
@@ -192,9 +200,12 @@ func check(c Case) (o h.Outcome) {
 	})
 	// reference run: the same script against a writer with the capabilities the handler sees
 	ref := httptest.NewRecorder()
-	if c.Strict && c.Front == "validator" {
+	switch {
+	case c.Strict && c.Front == "validator":
 		run(c.Script, plainWriter{ref})
-	} else {
+	case c.PlainClient && c.Front == "validator":
+		run(c.Script, deafFlusher{plainWriter{ref}})
+	default:
 		run(c.Script, ref)
 	}
 	refBody, _ := io.ReadAll(ref.Result().Body)
@@ -259,7 +270,12 @@ func check(c Case) (o h.Outcome) {
 		return
 	}
 	errCalls = nil
-	if !o.Guarded("Middleware.ServeHTTP", func() { v.Middleware(handler).ServeHTTP(client, request(c.Request)) }) {
+	var cw http.ResponseWriter = client
+	if c.PlainClient {
+		cw = plainWriter{client}
+		o.Class("client-writer:plain:strict=%v", c.Strict)
+	}
+	if !o.Guarded("Middleware.ServeHTTP", func() { v.Middleware(handler).ServeHTTP(cw, request(c.Request)) }) {
 		return
 	}
 	got, _ := io.ReadAll(client.Result().Body)
@@ -442,6 +458,7 @@ func enumerate(shard, nshards int, yield func(Case)) {
 			for _, onerr := range []bool{false, true} {
 				emit(Case{Request: "valid", Script: s, Strict: strict, OnErr: onerr, Front: "validator"})
 			}
+			emit(Case{Request: "valid", Script: s, Strict: strict, Front: "validator", PlainClient: true})
 		}
 	}
 	for _, s := range scripts[:120] {
@@ -488,6 +505,7 @@ func gen(t *rapid.T) Case {
 		Strict: rapid.Bool().Draw(t, "strict"), OnErr: rapid.Bool().Draw(t, "onerr"), Front: rapid.SampledFrom([]string{"validator", "validator", "validator", "handler-serve", "handler-middleware"}).Draw(t, "front"),
 		Prelude: rapid.SampledFrom([]string{"", "", "head", "invalid", "unroutable", "bad-response", "good-response"}).Draw(t, "prelude"),
 		VOpts:   rapid.SampledFrom([]int{0, 0, 1, 2, 3, 4, 5, 7}).Draw(t, "vopts")}
+	c.PlainClient = c.Front == "validator" && rapid.IntRange(0, 3).Draw(t, "plainclient") == 0
 	if c.Request == "invalid-secured" {
 		c.Front = "validator" // the older ValidationHandler installs a callback that accepts everything
 	}
